@@ -8,7 +8,26 @@ Runtime shell   google.api_core: `gapic_v1.method._GapicCallable.__call__`, `ret
                 `retry_target` / `exponential_sleep_generator`, `timeout.TimeToDeadlineTimeout`
                 (reference model; validated differentially, not verified).
 
+                gapic/utils/options.py `Options.build`: `retry-config` (several paths: the last one is read)
+
 Durations and multipliers are exact rationals (`Rat`, Lean core); `Float` never appears.
+
+Modelled since the deepening round: `optsRetry` (last `retry-config` wins), `wrappedTable` (the whole
+`_wrapped_methods` table: one entry per RPC of the service followed by one `default_timeout=None` entry per
+mixin RPC — mixin RPCs never get service-config defaults, named or not).
+
+NOT modelled (stated, so that nobody reads more into the theorems):
+* the KEY of a table entry (`method.transport_safe_name|snake_case`): names are C03/C12's subject; the harness
+  takes the key from the real `Method` object;
+* `_wrap_method`'s `kind=` keyword of the async transports and api-core's choice of gRPC vs REST error
+  wrapping; REST status → exception mapping (the property is about gRPC status codes);
+* the call-time `wrap_method(..., default_timeout=None)` of the IAM helper methods emitted with
+  `add-iam-methods` (client.py.j2 / async_client.py.j2) — same shape as a mixin entry;
+* `_to_float` on literals outside `d+[.d*]` / `.d+` / `d+n` (sign, exponent, underscores, blanks, inf/nan):
+  `toFloat?` answers `none` = "outside the model";
+* extra keys inside a `name` element, a `name` that is not a list (the generator raises TypeError);
+* `maxAttempts` beyond being carried into `RetryInfo` (the templates never read it);
+* real time, the distribution of the jitter, attempts that take time, client-streaming retries.
 -/
 namespace GapicModel.Model.Retry
 
@@ -318,6 +337,33 @@ def run (retry : Option Params) (timeout : Option Rat) (jit : Nat → Rat) :
               let t := run retry timeout jit rest (i + 1) (el + w)
               ⟨here :: t.attempts, w :: t.waits, t.result⟩
         else ⟨[here], [], .failed c⟩
+
+/-! ### `Options.build` and the whole table -/
+
+/-- `retry_paths[-1]`: of several `retry-config=` options only the LAST file is read; no option = no config
+(`opts.retry is None`, every method unnamed). -/
+def optsRetry (configs : List ServiceConfig) : ServiceConfig := (configs.getLast?).getD []
+
+/-- `_prep_wrapped_messages`: `service.methods` in order, each with its defaults, then `api.mixin_api_methods`,
+each with the literal `default_timeout=None` and no `default_retry` — whatever the service config says.
+Keyed here by RPC name (the emitted key is `transport_safe_name|snake_case`, not modelled). -/
+def ownEntries (cfg : ServiceConfig) (svc : String) : List String → Except Err (List (String × Emitted))
+  | [] => .ok []
+  | m :: ms =>
+    match methodDefaults cfg svc m with
+    | .error e => .error e
+    | .ok d =>
+      match ownEntries cfg svc ms with
+      | .error e => .error e
+      | .ok rest => .ok ((m, emittedDefaults d) :: rest)
+
+def mixinEntry : Emitted := ⟨none, none⟩
+
+def wrappedTable (cfg : ServiceConfig) (svc : String) (methods mixins : List String) :
+    Except Err (List (String × Emitted)) :=
+  match ownEntries cfg svc methods with
+  | .error e => .error e
+  | .ok own => .ok (own ++ mixins.map fun m => (m, mixinEntry))
 
 /-- A call of an emitted client method: table entry `e`, per-call `retry=` / `timeout=`. -/
 def call (e : Emitted) (retry : Arg (Option Params)) (timeout : Arg (Option Rat))
